@@ -359,6 +359,7 @@ def _rel_sig(tname, base, spec2):
         t = "contract-" + ("star" if spec2.get("contracted_all") else "root-child" if spec2.get("contracted_at_root") else "deeper")
     return (f"rel:{t}:{base['kind']}:bins={'y' if base.get('bins', 1) > 1 else 'n'}"
             + (":tied-rate-terms" if base.get("adversarial") and "zero-length-edge" not in t else "")
+            + (":user-model:" + str(base["user_layout"]) if base.get("user_layout") and "zero-length-edge" not in t else "")
             + (":scoped-by-tips" if base.get("scope_rules") and not base.get("resolved_scopes") and "zero-length-edge" not in t else ""))
 
 
@@ -404,7 +405,7 @@ def _adversarial_rules(rng, name):
     return [dict(par_name=p, init=rng.choice(pool)) for p in pnames]
 
 
-def _pairs(ctx, rng, plan, out, collect=None, only=None, adversarial=False, force_scope=False):
+def _pairs(ctx, rng, plan, out, collect=None, only=None, adversarial=False, force_scope=False, user=None):
     """for every base problem run the applicable relations on the real implementation.
     plan: [(model name, max number of relations or None for all)]"""
     for name, limit in plan:
@@ -412,6 +413,8 @@ def _pairs(ctx, rng, plan, out, collect=None, only=None, adversarial=False, forc
         small = kind in ("codon", "protein")
         base = U.rand_problem(rng, name, ntips=rng.randint(3, 5) if small else (rng.randint(5, 7) if force_scope else None),
                               ncols=rng.randint(3, 8) if small else None, root_deg=2 if rng.random() < 0.45 else None)
+        if user:
+            base["user_layout"] = user.get(name)
         if not base["mprobs"]:
             # motif probabilities estimated from the alignment use a pseudocount, i.e. are a different *parameter value*
             # after repeating columns; the relations are between runs with identical parameters
@@ -518,7 +521,7 @@ def _root_layout(tree):
 
 def _plan(ctx, rng, n_nuc, n_codon, n_prot, n_dinuc, big_limit=5):
     kinds = U.model_kinds()
-    nuc = [m for m, k in kinds.items() if k == "nucleotide"]
+    nuc = X.canned([m for m, k in kinds.items() if k == "nucleotide"])
     codon = [m for m, k in kinds.items() if k == "codon"]
     prot = [m for m, k in kinds.items() if k == "protein"]
     rng.shuffle(nuc)
@@ -560,7 +563,7 @@ def spec_check(ctx, budget):
     # tied / near-defective in-bounds parameters: every edge split (and the root inside an edge / moved, for the reversible
     # models) for the continuous-time nucleotide models, non-reversible GN / ssGN included
     kinds = U.model_kinds()
-    nuc = [m for m, k in kinds.items() if k == "nucleotide" and m not in U.DISCRETE]
+    nuc = X.canned([m for m, k in kinds.items() if k == "nucleotide" and m not in U.DISCRETE])
     n_adv = (8 if budget <= 1 else 4 * budget) * (3 if ctx.thorough else 1)
     adv = [(("GN", "GN", "GN", "ssGN")[(i // 2) % 4] if i % 2 == 0 else nuc[(i + ctx.seed) % len(nuc)], None) for i in range(n_adv)]
     _pairs(ctx, rng, adv, out, only=("split", "root_on_edge", "reroot", "midpoint"), adversarial=True)
@@ -570,6 +573,12 @@ def spec_check(ctx, budget):
     n_sc = (6 if budget <= 1 else 3 * budget) * (3 if ctx.thorough else 1)
     sc = [(with_params[(i + ctx.seed) % len(with_params)], None) for i in range(n_sc)]
     _pairs(ctx, rng, sc, out, only=("reroot", "scope_explicit", "children", "relabel", "relabel_permute"), force_scope=True)
+    # user-built models: every predicate-set layout (symmetric / nested / one-directional terms balanced within a parameter,
+    # mirrored across parameters, single, cyclic); whatever the library hands out as TimeReversible must pass the relations
+    for rep in range(1 if budget <= 1 else budget):
+        acc = X.user_models(rng, out)
+        _pairs(ctx, rng, [(name, None if ctx.thorough else 8) for _, name in acc], out,
+               only=("reroot", "root_on_edge", "midpoint", "unrooted", "state_perm", "children", "split"), user=dict((n, l) for l, n in acc))
     return out
 
 
@@ -686,7 +695,12 @@ def match_finding(f, k):
 
 def _recheck(inp):
     out = new_outcome()
-    lf0, l0 = _lnl(inp["original"])
+    try:
+        lf0, l0 = _lnl(inp["original"])
+    except ValueError:
+        if str(inp["original"].get("model", "")).startswith(X.USER_PREFIX):
+            return None  # the library refuses to build this user-defined model as time-reversible: nothing to compare
+        raise
     try:
         lf2, l2 = _lnl(inp["transformed"])
     except Exception as e:
